@@ -108,7 +108,7 @@ func JSONWriteIRIProp(b *[]byte, n string, i LinkOrIRI) (notEmpty bool) {
 }
 
 func JSONWriteItemProp(b *[]byte, n string, i Item) (notEmpty bool) {
-	if i == nil {
+	if IsNil(i) {
 		return notEmpty
 	}
 	if im, ok := i.(json.Marshaler); ok {
@@ -156,7 +156,7 @@ func JSONWriteItemCollectionValue(b *[]byte, col ItemCollection, compact bool) (
 	if len(col) == 1 && compact {
 		it := col[0]
 		im, ok := it.(json.Marshaler)
-		if !ok {
+		if !ok || IsNil(it) {
 			return false
 		}
 		v, err := im.MarshalJSON()
@@ -178,7 +178,7 @@ func JSONWriteItemCollectionValue(b *[]byte, col ItemCollection, compact bool) (
 	skipComma := true
 	for _, it := range col {
 		im, ok := it.(json.Marshaler)
-		if !ok {
+		if !ok || IsNil(it) {
 			continue
 		}
 		v, err := im.MarshalJSON()
